@@ -518,9 +518,15 @@ impl GrammarBuilder {
                     }
                     gsymref.gsymbol = Some(GrammarSymbol::Name(name))
                 }
-                RepetitionOperatorOp::OneOrMoreGreedy => todo!(),
-                RepetitionOperatorOp::ZeroOrMoreGreedy => todo!(),
-                RepetitionOperatorOp::OptionalGreedy => todo!(),
+                RepetitionOperatorOp::OneOrMoreGreedy
+                | RepetitionOperatorOp::ZeroOrMoreGreedy
+                | RepetitionOperatorOp::OptionalGreedy => {
+                    return err!(
+                        "Greedy repetition operators (*!, +!, ?!) are not implemented.".to_owned(),
+                        Some(self.file.clone()),
+                        ref_type.span
+                    );
+                }
             }
         }
         Ok(())
